@@ -71,8 +71,19 @@ def gen_ifaces(rng):
     return ifaces
 
 
-def render_src(ifaces):
-    lines = ["package svc", "", 'import (', '\t"example.com/m/ext/model"', '\t"example.com/m/orig"', ")", "", "var _ model.T", "var _ orig.T", "", "type LT struct{ L int }", ""]
+def diamond_files(depth):
+    """a layered dependency graph: every package of a layer imports both packages of the layer below (2^depth import paths, 2*depth packages)"""
+    out = {}
+    for d in range(depth):
+        for x in "ab":
+            imp = "" if d == depth - 1 else 'import (\n\t"%s/dg/l%02da"\n\t"%s/dg/l%02db"\n)\n\nvar _ = l%02da.V + l%02db.V\n\n' % (MOD, d + 1, MOD, d + 1, d + 1, d + 1)
+            out["dg/l%02d%s/t.go" % (d, x)] = "package l%02d%s\n\n%svar V = %d\n" % (d, x, imp, d)
+    return out
+
+
+def render_src(ifaces, diamond=False):
+    lines = ["package svc", "", 'import (', '\t"example.com/m/ext/model"', '\t"example.com/m/orig"'] + (['\t"example.com/m/dg/l00a"', '\t"example.com/m/dg/l00b"'] if diamond else []) + \
+            [")", "", "var _ model.T", "var _ orig.T"] + (["var _ = l00a.V + l00b.V"] if diamond else []) + ["", "type LT struct{ L int }", ""]
     for i in ifaces:
         lines.append("type %s%s interface {" % (i["name"], i.get("tparams", "")))
         for e in i["embeds"]:
@@ -175,6 +186,11 @@ def gen_cases(ctx):
                 if level == "pkg+override":
                     c["onefile"] = rep == 0 or c["seed"] % 2 == 0   # the witness: both maps meet in one output file
                 cases.append(c)
+    # the source package sits on top of a deep layered dependency graph; the replacement packages are not part of it
+    for k, level in enumerate(("root", "iface")):
+        cases.append({"seed": 1000 + k, "repl": {"T": ["repa", "R1"], "Other": ["repb", "R1"]}, "level": level, "placement": ["inpkg", "outpkg"][k], "builtin_formatter": "gofmt", "diamond": 36})
+    for k, level in enumerate(("root", "pkg", "iface")):
+        cases.append({"kind": "foreign", "seed": k, "level": level, "builtin_formatter": ["gofmt", "noop", "goimports"][k]})
     return cases
 
 
@@ -199,12 +215,78 @@ def parse_sig(path):
     return imports, types
 
 
+def eval_foreign(ctx, case):
+    """the mocked interfaces live OUTSIDE the main module (standard library): the replacement package is still one of the user's own"""
+    files = {k + "/t.go": v for k, v in PKGS.items()}
+    files["sig.templ"] = SIGPROBE
+    files["use/use.go"] = "package use\n\nimport (\n\t\"io\"\n\n\t\"example.com/m/repa\"\n)\n\nvar _ io.Reader\nvar _ repa.R1\n"
+    rt = {"io": {"Reader": {"pkg-path": MOD + "/repa", "type-name": "R1"}}}
+    ifs = {"ReaderFrom": None, "WriterTo": None, "ReadWriter": None}
+    cfg = {"template": "file://sig.templ", "require-template-schema-exists": False, "formatter": "noop", "dir": "mocks/iomocks", "pkgname": "iomocks",
+           "filename": "sig_{{.InterfaceName}}.txt", "packages": {"io": {"interfaces": ifs}}}
+    lvl = case["level"]
+    if lvl == "root":
+        cfg["replace-type"] = rt
+    elif lvl == "pkg":
+        cfg["packages"]["io"]["config"] = {"replace-type": rt}
+    else:
+        for k in ifs:
+            ifs[k] = {"config": {"replace-type": rt}}
+    files[".mockery.yml"] = json.dumps(cfg)
+    root = core.scratch_module(ctx, files)
+    tags = ["source-package=standard-library", "level=" + lvl]
+    r = core.run_mockery(ctx, root, [], timeout=600)
+    if r.timed_out:
+        return Verdict.inconclusive("watchdog")
+    if r.panicked or r.exit != 0:
+        return Verdict.violated("mockery failed on a valid replace-type configuration for interfaces of package io (exit %s)" % r.exit, dict(r.brief(1500), config=cfg), tags)
+    want = {("ReaderFrom", "ReadFrom", "param", 0): "<%s/repa>.R1" % MOD, ("ReaderFrom", "ReadFrom", "result", 0): "int64", ("ReaderFrom", "ReadFrom", "result", 1): "error",
+            ("WriterTo", "WriteTo", "param", 0): "<io>.Writer", ("WriterTo", "WriteTo", "result", 0): "int64", ("WriterTo", "WriteTo", "result", 1): "error",
+            ("ReadWriter", "Read", "param", 0): "[]byte", ("ReadWriter", "Write", "param", 0): "[]byte"}
+    checked = 0
+    for nm in ifs:
+        imports, types = parse_sig(os.path.join(root, "mocks/iomocks", "sig_%s.txt" % nm))
+        for key, w in want.items():
+            if key[0] != nm:
+                continue
+            got = types.get(key)
+            g = re.sub(r"\s+", "", norm_probe(got, imports)) if got is not None else None
+            if g != w:
+                return Verdict.violated("interface io.%s with replace-type io.Reader -> repa.R1 at %s: %s %s %d is rendered as %r, model %r" % (nm, lvl, key[1], key[2], key[3], g, w),
+                                        {"imports": imports}, tags)
+            checked += 1
+    # the built-in templates on the same configuration must compile
+    for tmpl in ("testify", "matryer"):
+        c2 = dict(cfg, template=tmpl, formatter=case["builtin_formatter"], filename="%s_{{.InterfaceName}}.go" % tmpl, structname=("T" if tmpl == "testify" else "Q") + "Mock{{.InterfaceName}}")
+        c2.pop("require-template-schema-exists")
+        c2["force-file-write"] = True
+        if tmpl == "matryer":
+            c2["template-data"] = {"skip-ensure": True}
+        with open(os.path.join(root, ".mockery.yml"), "w") as f:
+            f.write(json.dumps(c2))
+        r = core.run_mockery(ctx, root, [], timeout=600)
+        if r.timed_out:
+            return Verdict.inconclusive("watchdog")
+        if r.panicked or r.exit != 0:
+            return Verdict.violated("%s template failed with replace-type on interfaces of package io (exit %s)" % (tmpl, r.exit), dict(r.brief(1500), config=c2), tags)
+        comp = core.go_compile(root)
+        if comp.timed_out:
+            return Verdict.inconclusive("watchdog compile")
+        if comp.exit != 0:
+            return Verdict.violated("%s mocks of io interfaces generated with replace-type do not compile" % tmpl, dict(comp.brief(2000)), tags)
+    return Verdict.held({"types_compared": checked, "interfaces": len(ifs)}, tags=tags)
+
+
 def eval_case(ctx, case):
+    if case.get("kind") == "foreign":
+        return eval_foreign(ctx, case)
     rng = random.Random(case["seed"])
     ifaces = gen_ifaces(rng)
     by_name = {i["name"]: i for i in ifaces}
     files = {k + "/t.go": v for k, v in PKGS.items()}
-    files["svc/svc.go"] = render_src(ifaces)
+    files["svc/svc.go"] = render_src(ifaces, diamond=bool(case.get("diamond")))
+    if case.get("diamond"):
+        files.update(diamond_files(case["diamond"]))
     files["sig.templ"] = SIGPROBE
     rt = {MOD + "/orig": {k: {"pkg-path": MOD + "/" + v[0], "type-name": v[1]} for k, v in case["repl"].items()},
           MOD + "/svc": {k: {"pkg-path": MOD + "/" + v[0], "type-name": v[1]} for k, v in LOCAL_REPL.items()}}
